@@ -991,24 +991,87 @@ pub fn gen_deep_sym(rng: &mut Rng, tier: Tier, equal_keys: bool) -> SymFile {
 
 /// one `bpmap` operation: a `.sym` text served with a stored index (valid / stale / corrupted / with entries at
 /// the boundaries), lookups on one map (addresses repeated and interleaved: the memo tables)
+/// C10's tie-break oracle for the index built from `text`: for every key of the implementation's own index (symbol
+/// address, FILE id, INLINE_ORIGIN id) the file offset of the entry that survived `sort_unstable + dedup`
+pub fn ties_token(intent: &str, text: &[u8]) -> String {
+    let mut parts: Vec<String> = Vec::new();
+    if let Some(d) = make_index(text, 1 << 20).and_then(|i| crate::gen::breakpad_sym::decode_symindex(&i)) {
+        parts.extend(d.syms.iter().map(|s| format!("s:{}:{}", s.0, s.3)));
+        parts.extend(d.files.iter().map(|f| format!("f:{}:{}", f.0, f.2)));
+        parts.extend(d.origins.iter().map(|f| format!("o:{}:{}", f.0, f.2)));
+    }
+    format!("{intent}|{}", parts.join(","))
+}
+
+fn first_line(text: &[u8]) -> &[u8] {
+    text.split(|b| *b == b'\n').next().unwrap_or_default()
+}
+
+/// `other` with its first line replaced by `line`
+fn with_first_line(other: &[u8], line: &[u8]) -> Vec<u8> {
+    let rest = other.iter().position(|b| *b == b'\n').map(|p| &other[p..]).unwrap_or_default();
+    [line, rest].concat()
+}
+
+/// one `bpmap` operation: a `.sym` text served with a stored index — its own, of another file with the SAME
+/// MODULE line (used by the repaired `make_index_storage`), of another file with ANOTHER MODULE line (ignored:
+/// the text is indexed itself), a MODULE line that is a proper prefix of the text's / longer than the text,
+/// corrupted, or with entries at the boundaries —, lookups on one map (addresses repeated: the memo tables)
 pub fn bpmap_op(rng: &mut Rng, tier: Tier) -> Option<String> {
     let deep = rng.chance(1, 3);
-    let sym = if deep { gen_deep_sym(rng, tier, false) } else { gen_sym(rng) };
+    let mut sym = if deep { gen_deep_sym(rng, tier, false) } else { gen_sym(rng) };
     let mut addrs: Vec<u32> = sym.addrs.clone();
     let own = make_index(&sym.text, 4096);
-    let mut idx = match rng.below(8) {
+    let another = |rng: &mut Rng| if rng.chance(1, 2) { gen_deep_sym(rng, tier, false) } else { gen_sym(rng) };
+    let mut intent = "own";
+    let mut idx = match rng.below(12) {
         0 | 1 => own?,
-        2 => {
-            let other = if rng.chance(1, 2) { gen_deep_sym(rng, tier, false) } else { gen_sym(rng) };
+        2 | 3 => {
+            // foreign index, same MODULE line: the stored index is used (its offsets applied to this text)
+            intent = "foreign-same";
+            let other = another(rng);
             addrs.extend(other.addrs.iter().take(8));
-            make_index(&other.text, 4096)?
+            make_index(&with_first_line(&other.text, first_line(&sym.text)), 4096)?
         }
-        3 => {
+        4 | 5 => {
+            // foreign index, another MODULE line (other id / other name / other os): ignored, the text is indexed
+            intent = "foreign-other";
+            let other = another(rng);
+            addrs.extend(other.addrs.iter().take(8));
+            let line = match rng.below(4) {
+                0 => format!("MODULE Linux x86_64 {} t", random_breakpad_id(rng)),
+                1 => format!("MODULE Linux x86_64 {MODULE_ID} u"),
+                2 => format!("MODULE windows x86_64 {MODULE_ID} t"),
+                _ => format!("MODULE Linux x86_64 {MODULE_ID} t "),
+            };
+            make_index(&with_first_line(&other.text, line.as_bytes()), 4096)?
+        }
+        6 => {
+            // the stored MODULE line is a proper prefix of the text's first line (the rule compares a prefix): used
+            intent = "foreign-prefix";
+            let other = another(rng);
+            let stored_line = format!("MODULE Linux x86_64 {MODULE_ID} t");
+            let suffix = *rng.pick(&["t", " x", "\r"]);
+            sym.text = with_first_line(&sym.text, format!("{stored_line}{suffix}").as_bytes());
+            make_index(&with_first_line(&other.text, stored_line.as_bytes()), 4096)?
+        }
+        7 => {
+            // the text is shorter than the stored MODULE line / is exactly that line without a line break
+            intent = "foreign-short";
+            let line = format!("MODULE Linux x86_64 {MODULE_ID} t");
+            let i = make_index(&with_first_line(&another(rng).text, line.as_bytes()), 4096)?;
+            let cut = *rng.pick(&[line.len(), line.len() - 1, 7, 8, line.len() + 1]);
+            sym.text = format!("{line}\nFUNC 1000 10 0 f\n").as_bytes()[..cut].to_vec();
+            i
+        }
+        8 => {
+            intent = "corrupt";
             let mut i = own?;
             corrupt_index(&mut i, rng);
             i
         }
         _ => {
+            intent = "tweak";
             let mut i = own?;
             let t = tweak_entries(&mut i, sym.text.len() as u64, rng);
             addrs.splice(0..0, t);
@@ -1016,6 +1079,7 @@ pub fn bpmap_op(rng: &mut Rng, tier: Tier) -> Option<String> {
         }
     };
     if rng.chance(1, 40) {
+        intent = "truncated";
         idx.truncate(rng.below(idx.len() as u64 + 1) as usize);
     }
     addrs.truncate(if deep { 14 } else { 20 });
@@ -1030,7 +1094,7 @@ pub fn bpmap_op(rng: &mut Rng, tier: Tier) -> Option<String> {
         let at = rng.below(a.len() as u64 + 1) as usize;
         a.insert(at, "iter".to_string());
     }
-    Some(format!("bpmap {} {} {}", hex(&sym.text), hex(&idx), a.join(" ")))
+    Some(format!("bpmap {} {} {} {}", hex(&sym.text), hex(&idx), ties_token(intent, &sym.text), a.join(" ")))
 }
 
 fn random_breakpad_id(rng: &mut Rng) -> String {
@@ -1136,7 +1200,7 @@ pub fn deep_case(rng: &mut Rng, tier: Tier) -> Vec<String> {
     let a: Vec<String> = sym.addrs.iter().map(|a| a.to_string()).collect();
     if !equal_keys {
         if let Some(i) = make_index(&sym.text, 4096) {
-            ops.push(format!("bpmap {} {} {}", hex(&sym.text), hex(&i), a.join(" ")));
+            ops.push(format!("bpmap {} {} {} {}", hex(&sym.text), hex(&i), ties_token("own", &sym.text), a.join(" ")));
         }
     }
     ops.push(format!("file {} {}", hx("t.sym"), hex(&sym.text)));
@@ -1345,6 +1409,51 @@ pub fn fixed_cases(tier: Tier) -> Vec<Case> {
         ops.push(format!("bpmap {} {} 12290 4100 12290", hex(text.as_bytes()), hex(&i)));
         ops.push(format!("bpmap {} {} 4100 12290 4100", hex(text.as_bytes()), hex(&i)));
         chunked("entry-bounds", ops, 12, &mut out);
+    }
+    // (9b) the stored index of ANOTHER file (fix 3f61c23c): same MODULE line => used, its offsets are applied to this
+    // text; another id / name / os, a longer line, a text shorter than the line => ignored, the text is indexed itself;
+    // a MODULE line that is a proper prefix of the text's first line => used (the rule compares a prefix)
+    {
+        let line = format!("MODULE Linux x86_64 {MODULE_ID} t");
+        let body_a = "FILE 0 a.c\nFUNC 1000 10 0 fa\n1000 10 1 0\nPUBLIC 2000 0 pa\n";
+        let body_b = "FILE 0 bb.c\nPUBLIC 800 0 pb\nFUNC 1008 20 0 fb\n1008 20 7 0\nFUNC 2000 8 0 fb2\n";
+        let lookups = "2048 4096 4100 4104 4120 8192 8200 iter 4100 8192";
+        let mut ops = Vec::new();
+        let stored_lines = [
+            ("foreign-same", line.clone()),
+            ("foreign-other", format!("MODULE Linux x86_64 {} t", "AA152DEB2D9B76084C4C44205044422E1")),
+            ("foreign-other", format!("MODULE Linux x86_64 {MODULE_ID} u")),
+            ("foreign-other", format!("MODULE Linux x86_64 {MODULE_ID} t ")),
+            ("foreign-other", format!("MODULE  Linux x86_64 {MODULE_ID} t")),
+            ("foreign-other", format!("MODULE Linux x86_64 {MODULE_ID} tt")),
+            ("foreign-prefix", format!("MODULE Linux x86_64 {MODULE_ID}")),
+        ];
+        for (intent, stored_line) in &stored_lines {
+            let text = format!("{line}\n{body_a}");
+            // `MODULE … <id>` without a name does not parse as a MODULE record: index the longer line, then the text
+            // gets the longer first line instead (stored line = proper prefix of the text's)
+            let (text, stored_text) = if *intent == "foreign-prefix" {
+                (format!("{line}t\n{body_a}"), format!("{line}\n{body_b}"))
+            } else {
+                (text, format!("{stored_line}\n{body_b}"))
+            };
+            if let Some(i) = make_index(stored_text.as_bytes(), 4096) {
+                ops.push(format!("bpmap {} {} {} {lookups}", hex(text.as_bytes()), hex(&i), ties_token(intent, text.as_bytes())));
+            }
+        }
+        if let Some(i) = make_index(format!("{line}\n{body_b}").as_bytes(), 4096) {
+            for cut in [0usize, 6, 7, 8, line.len() - 1, line.len(), line.len() + 1, line.len() + 5] {
+                let text = format!("{line}\n{body_a}");
+                let text = &text.as_bytes()[..cut];
+                ops.push(format!("bpmap {} {} {} {lookups}", hex(text), hex(&i), ties_token("foreign-short", text)));
+            }
+            // the same index next to a text whose first line differs only by a trailing CR / CRLF file
+            for first in [format!("{line}\r"), line.replace(' ', "  ")] {
+                let text = format!("{first}\n{body_a}");
+                ops.push(format!("bpmap {} {} {} {lookups}", hex(text.as_bytes()), hex(&i), ties_token("foreign-cr-or-spaces", text.as_bytes())));
+            }
+        }
+        chunked("foreign-index", ops, 6, &mut out);
     }
     // (10) scale: production-shaped files through the 1 MiB chunk loop, size-relative CPU budget
     // (functions, line records per function, FILE records, seed: even = blocks in descending address order)
